@@ -2,7 +2,7 @@
 # tools/regressions.sh : re-introduce each repaired defect (reverse patch of its fix: commit) on a
 # scratch copy and confirm that the property's quick check reports it again.
 cd "$(dirname "$0")/.."
-declare -A MAP=( [f146a5e]=C06 [1986faf]=C06 [b9fa37d]=C07 [3f258ae]=C03 [48f9cff]=C04 [c640501]=C20 [085ee4a]=C14 [ab28845]=C13 [c2a6aae]=C13 )
+declare -A MAP=( [f146a5e]=C06 [1986faf]=C06 [b9fa37d]=C07 [3f258ae]=C03 [48f9cff]=C04 [c640501]=C20 [085ee4a]=C14 [ab28845]=C13 [c2a6aae]=C13 [eac39f0]=C13 )
 for h in "${!MAP[@]}"; do
   c=${MAP[$h]}
   out=$(MUT_ARGS="${MUT_ARGS:-}" tools/mutant.sh mutants/revert_$h.patch $c 2>&1)
